@@ -60,7 +60,7 @@ type c13Ev struct {
 	A       string   `json:"a,omitempty"`
 	B       string   `json:"b,omitempty"`
 	Order   []string `json:"order,omitempty"` // observed order of Commit calls
-	Fault   string   `json:"fault,omitempty"` // none | fail | stop | logerr | logstop   (what actually fired)
+	Fault   string   `json:"fault,omitempty"` // none | fail | failctx | stop | logerr | logstop | sweepat (what actually fired)
 	K       int      `json:"k"`
 	Want    string   `json:"want,omitempty"` // requested fault (replay input; ignored by the model)
 	WantK   int      `json:"wantk,omitempty"`
@@ -114,6 +114,7 @@ type c13Inj struct {
 	calls    int
 	order    []string
 	fired    bool
+	sweep    func() // mode sweepat: the rollback loop's tick fires while the operation is in flight
 	cancel   context.CancelFunc
 	logSeen  int // did_change_log writes seen in this operation (modes logerr / logstop)
 	sweepErr string
@@ -132,6 +133,11 @@ func (d *c13Deco) Commit(ctx context.Context, e orm.DIDChangeLog) error {
 	if in.mode == "stop" && in.k == in.calls {
 		in.fired = true
 		panic(c13Stop{})
+	}
+	if in.mode == "sweepat" && in.k == in.calls && !in.fired && in.sweep != nil {
+		// between the database write and this publish: the sweep runs (the operation is in flight and YOUNG)
+		in.fired = true
+		in.sweep()
 	}
 	in.calls++
 	if (in.mode == "fail" || in.mode == "failctx") && d.name == "nuts" {
@@ -450,7 +456,7 @@ func (w *c13World) run(ev c13Ev) (c13Ev, string) {
 		}
 		opCtx, cancel := context.WithCancel(w.ctx)
 		defer cancel()
-		*w.inj = c13Inj{mode: want, k: wantK, n: len(w.methods), cancel: cancel}
+		*w.inj = c13Inj{mode: want, k: wantK, n: len(w.methods), cancel: cancel, sweep: func() { w.mgr.Rollback(w.ctx) }}
 		subj := w.real(ev.Subj)
 		extra := ""
 		var err error
@@ -599,6 +605,22 @@ func c13Variants(sid string, seq []c13Ev, methods []string, rng *rand.Rand, all 
 	}
 	for k := 0; k < len(methods); k++ {
 		faults = append(faults, fault{"logerr", k}, fault{"logstop", k})
+	}
+	// (e) the rollback loop ticks while an operation is in flight (before its k-th Commit call): nothing may happen, the whole
+	// run must look exactly like the fault-free one
+	for j := range seq {
+		for k := 0; k < len(methods); k++ {
+			if !all && rng.Intn(3) != 0 {
+				continue
+			}
+			mid := seq[j]
+			mid.Fault, mid.K = "sweepat", k
+			v := append([]c13Ev{cfg(fmt.Sprintf("mid:%d", j))}, seq[:j]...)
+			v = append(v, mid)
+			v = append(v, seq[j+1:]...)
+			v = append(v, c13Ev{Op: "tick", D: 70}, c13Ev{Op: "sweep"})
+			out = append(out, v)
+		}
 	}
 	for j := range seq {
 		for _, f := range faults {
